@@ -69,6 +69,21 @@ func genEscape(w *bufio.Writer, rng *prng, maxLen, nRandom int) {
 			}
 		})
 	}
+	// ASCII runs of every length up to 40 before and between the pieces that matter (word-at-a-time
+	// scanning): from the start of the unescaped suffix and after a non-ASCII rune
+	const asciiRun = "abcdefghijklmnopqrstuvwxyz0123456789ABCDEFGH"
+	for l := 0; l <= 40; l++ {
+		for _, piece := range []string{"‹", "›", "\xe2", "\xe2\x80", "\n", "é", "\xe2\x80\xb8"} {
+			for _, pre := range []string{"", "é", "›"} {
+				s := pre + asciiRun[:l] + piece + asciiRun[:l%9] + piece
+				for _, sl := range []int{0, len(pre), len(pre) + l/2} {
+					for fl := 0; fl < 4; fl++ {
+						emitEscape(w, s, sl, fl&1 != 0, fl&2 != 0)
+					}
+				}
+			}
+		}
+	}
 	for i := 0; i < nRandom; i++ {
 		s := randPayload(rng, 1+rng.intn(12))
 		sl := rng.intn(len(s) + 1)
@@ -96,6 +111,11 @@ func genEscBytes(w *bufio.Writer, rng *prng, maxLen, nRandom int) {
 	for n := 0; n <= maxLen; n++ {
 		enumStrings(alphaEscape, n, func(s string) { emitEscBytes(w, s) })
 	}
+	for l := 0; l <= 40; l++ {
+		for _, piece := range []string{"‹", "›", "\xe2", "\xe2\x80", "\n", "é"} {
+			emitEscBytes(w, "0123456789abcdefghijklmnopqrstuvwxyzABCDEFGH"[:l]+piece+"xyz"[:l%4]+piece)
+		}
+	}
 	for i := 0; i < nRandom; i++ {
 		emitEscBytes(w, randPayload(rng, 1+rng.intn(14)))
 	}
@@ -112,6 +132,22 @@ func emitMarkers(w *bufio.Writer, s string) {
 			hxs(string(rs.Redact().Redact())))
 	})
 	fmt.Fprintln(w, sx("markers", hxs(s), out))
+	// results are values: what an earlier call returned is not changed by later calls (scratch
+	// storage shared between calls)
+	{
+		rb := redact.RedactableBytes([]byte(s))
+		var r1, s1 []byte
+		pn, _ := try(func() { r1 = []byte(rb.Redact()); s1 = []byte(redact.RedactableBytes(rb.StripMarkers())) })
+		if !pn {
+			if prevMarkers.set {
+				ok := string(prevMarkers.redacted) == prevMarkers.redactedCopy && string(prevMarkers.stripped) == prevMarkers.strippedCopy
+				fmt.Fprintf(w, "(qtrue C07 %s %s %s)\n", hxs("the result of an earlier Redact/StripMarkers on a byte slice was changed by a later call"), b01(ok), hxs(prevMarkers.input+" then "+s))
+			}
+			prevMarkers.set, prevMarkers.input = true, s
+			prevMarkers.redacted, prevMarkers.redactedCopy = r1, string(r1)
+			prevMarkers.stripped, prevMarkers.strippedCopy = s1, string(s1)
+		}
+	}
 	// the conversions return values: later writes to the bytes they were made from do not change them
 	if len(s) > 0 {
 		b := []byte(s)
@@ -129,12 +165,25 @@ func emitMarkers(w *bufio.Writer, s string) {
 	}
 }
 
+var prevMarkers struct {
+	set                        bool
+	input                      string
+	redacted, stripped         []byte
+	redactedCopy, strippedCopy string
+}
+
 func genMarkers(w *bufio.Writer, rng *prng, maxLen, nRandom int) {
 	for n := 0; n <= maxLen; n++ {
 		enumStrings(alphaMarkers, n, func(s string) { emitMarkers(w, s) })
 	}
 	for i := 0; i < nRandom; i++ {
 		emitMarkers(w, randPayload(rng, 1+rng.intn(14)))
+	}
+	// many envelopes (adjacent, separated, empty, with line feeds between)
+	for _, n := range []int{15, 16, 17, 31, 32, 33, 63, 64, 65, 100, 127, 128, 129, 255, 256, 257, 1000} {
+		for _, u := range []string{"a‹b›", "‹b›", "‹›x", "‹é›\n"} {
+			emitMarkers(w, strings.Repeat(u, n))
+		}
 	}
 	// long envelopes and long safe stretches (1-, 2- and 3-byte runes; line feeds inside)
 	for _, n := range []int{255, 256, 999, 1000, 1001, 1002, 4096, 5000} {
